@@ -105,11 +105,16 @@ let () =
       | ["MAIN"] -> flush_file (); curname := Some "MAIN"
       | ["END"] ->
         flush_file ();
-        let fuel = nat_of_int (List.length !files + 1) in
-        (match start_program fuel !files !main with
+        (* recursion bound: every nesting level marks a new module path, and every path stems from an
+           import statement (of the program or of a file) *)
+        let nimp l = List.length (List.filter (function SImport _ -> true | _ -> false) l) in
+        let n = List.fold_left (fun acc (_, m) -> acc + nimp m) (nimp !main) !files in
+        let fuel = nat_of_int (n + 2) and pf = nat_of_int (List.length !files + 1) in
+        (match start_program fuel pf !files !main with
          | Ok t -> print_endline "R ok"; print_tables t
          | Err (EOpen (p, fp)) -> Printf.printf "R err open %s %s\n" (implode p) (implode fp)
-         | Err (EConflict (m, s)) -> Printf.printf "R err conflict %s %s\n" (implode m) (implode s));
+         | Err (EConflict (m, s)) -> Printf.printf "R err conflict %s %s\n" (implode m) (implode s)
+         | Err (EDepth p) -> Printf.printf "R err depth %s\n" (implode p));
         print_endline "END"
       | ws -> cur := parse_stmt ws :: !cur
     done with End_of_file -> ())
